@@ -26,7 +26,7 @@ def run(tier, seed, replay=None):
                      "scenarios v2_wide, v1_stop_join, v0_stop_join are tied to the model but have no reflection theorem (state space too large for the kernel budget)"],
         trusted_extra=["harness/rt (cooperative scheduler, __tsan_* shim)", "Core/Admit.lean trace-inclusion test", "g++ 12 -fsanitize=thread instrumentation"],
         explanation="Theorems: Props/C08 parametric (invariant induction over Proto/ScopeCounter: join_only_when_closed_and_zero, join_at_most_once, "
-                    "admitted_before_close_counted, nest_after_close_never_started, join_fires_when_closed_and_zero, no_deadlock, single_join_no_late_touch) "
-                    "and per-instance *_safe by kernel-evaluated closure of the reachable set for v2/v1/v0 configurations; "
-                    "v2_two_joins_late_touch / v1_cleanup_late_touch are proved NEGATIVE results (witness schedules) replayed on the real code. "
+                    "admitted_before_close_counted, nest_after_close_never_started, join_fires_when_closed_and_zero, no_deadlock, join_done_no_late_touch, evt_setter_unique) "
+                    "and per-instance *_safe (C08 clauses + no touch of the scope after its owner may destroy it) by kernel-evaluated closure "
+                    "of the reachable set for v2/v1/v0 configurations. "
                     "Tie: trace inclusion of every explored real execution in the model + model-independent monitors in the harness.")
